@@ -177,6 +177,19 @@ func c10Run(c *core.Ctx) {
 			})
 		}
 	}
+	for _, fam := range []string{"php7", "php5"} {
+		wideItems(corpus.MustFam(fam), true, func(it *corpus.Item, src, why string) {
+			if seen[src] {
+				return
+			}
+			seen[src] = true
+			if c.Next() {
+				cs := mkCase(src, nil, why)
+				cs.Ver = "5.6+7.4"
+				c10One(c, cs)
+			}
+		})
+	}
 	for _, src := range corpus.Specials() {
 		if !c.Next() {
 			continue
